@@ -21,6 +21,8 @@ def run(chk, tier):
     for cfg in configs(tier, thorough=('std', 'mocks', 'nostd-spin', 'nostd')):
         F = load(chk, cfg)
         E.eval_dyn_table(chk, F, 'R15.4', cfg)
+        from props import c13
+        c13.helper_cell(chk, F, 'R15.6', cfg)
         L.clone_and_ctor(chk, F, 'R15.3.clone', cfg)
         L.helper_clones(chk, F, 'R15.3.helpers', cfg)
         delegator_runtime(chk, F, 'R15.3', cfg)
